@@ -7,6 +7,7 @@ import (
 	"context"
 	"fmt"
 	"io"
+	"sort"
 	"strings"
 
 	"github.com/WuKongIM/WuKongIM/pkg/db/meta"
@@ -151,6 +152,8 @@ func (r *c11Runner) metaStep(f []string) string {
 		}
 		src, _ := meta.VerifDumpSlots(r.metaSrc(), r.mslots, r.mbackup)
 		dst, _ := meta.VerifDumpSlots(r.mdst, r.mslots, false)
+		sort.Strings(src)
+		sort.Strings(dst)
 		total, _ := meta.VerifCountAll(r.mdst)
 		again, err := c11MetaExport(r.mdst, r.mslots, r.mbackup)
 		return fmt.Sprintf("ok entries=%d eq=%v same=%v extra=%d", len(dst), strings.Join(src, ";") == strings.Join(dst, ";"),
